@@ -90,30 +90,31 @@ type interpreter struct {
 	goroutines         int32                  // atomically updated
 
 	// symgo
-	tb          *termTable
-	solver      *solver
-	opts        *Options
-	path        *pathState
-	queue       *workQueue
-	shared      *sharedResults
-	stats       *Stats
-	undo        []undoRec
-	logging     bool
-	checkpoint  int
-	runFn       *ssa.Function
-	harness     string
-	models      map[string]*ssa.Function
-	initOK      map[string]bool
-	witnessLeft int
-	persist     map[string]value
-	inSetup     bool
-	stdout      []value // captured writes to os.Stdout (CLI harness)
-	initPfx     []string
-	countPfx    []string
-	auxCount    int
-	callStack   []*ssa.Function
-	panicStack  []*ssa.Function
-	fastCache   map[*Term]*[4]uint64
+	tb           *termTable
+	solver       *solver
+	opts         *Options
+	path         *pathState
+	queue        *workQueue
+	shared       *sharedResults
+	stats        *Stats
+	undo         []undoRec
+	logging      bool
+	checkpoint   int
+	runFn        *ssa.Function
+	harness      string
+	models       map[string]*ssa.Function
+	initOK       map[string]bool
+	witnessLeft  int
+	persist      map[string]value
+	inSetup      bool
+	stdout       []value // captured writes to os.Stdout (CLI harness)
+	initPfx      []string
+	countPfx     []string
+	auxCount     int
+	callStack    []*ssa.Function
+	panicStack   []*ssa.Function
+	fastCache    map[*Term]*[4]uint64
+	completeSeen int
 }
 
 type deferred struct {
